@@ -188,6 +188,34 @@ pub fn run(env: &Env, prop: &str, tier: &str) -> i32 {
             }
         }
     }
+    if prop == "C16" {
+        // message and validator resolve the bound tokens in the same scope (declarations inside a fn body)
+        let units = vmodel::cf::c16_scope_units();
+        let res = match crate::cf::verdicts(env, &env.work.join("gen/c16scope"), "c16s", &units, false, true) {
+            Ok(r) => r,
+            Err(e) => {
+                eprintln!("INCONCLUSIVE: {e}");
+                return 2;
+            }
+        };
+        let (viols, _drift) = crate::cprops::judge_with_drift("C16", &units, &res);
+        rep.evaluations += units.len() as u64;
+        rep.nontrivial += units.len() as u64;
+        *rep.classes.entry("scope-unit".into()).or_insert(0) += units.len() as u64;
+        for v in viols {
+            rep.viols.push(vlib_report::Viol {
+                prop: "C16".into(),
+                decl_id: v.unit.id.clone(),
+                type_name: "T".into(),
+                decl: v.unit.decl.clone(),
+                signature: v.signature.clone(),
+                case: crate::cprops::case_json("C16", &v, false),
+                expected: v.expected.clone(),
+                actual: v.actual.clone(),
+                shrunk: "none".into(),
+            });
+        }
+    }
     if prop == "C11" {
         // the premise of "every obtainable value": no safe way to change a value in place
         let units = vmodel::cf::c11_gate_units();
